@@ -223,13 +223,13 @@ Proof. exists a_check, expand_rt_fault. split; [|vm_compute; discriminate].
 Lemma setup_unrealistic_refuted :
   exists i f, r_exit (hook_run head f [] i) <> r_exit (run_nolog i) /\ r_stdout (hook_run head f [] i) <> r_stdout (run_nolog i).
 Proof. exists a_check, setup_value_fault. split; vm_compute; discriminate. Qed.
-(* a failing approvals sink is not silent on stderr (logging.raiseExceptions) *)
+(* before 1aa56d9 a failing approvals sink was not silent on stderr (logging.raiseExceptions) *)
 Lemma traceback_refuted :
-  exists i f, realistic f /\ r_tracebacks (hook_run head f [] i) <> r_tracebacks (run_nolog i).
+  exists i f, realistic f /\ r_tracebacks (hook_run loud f [] i) <> r_tracebacks (run_nolog i).
 Proof. exists a_check, emit_fails. split; [|vm_compute; discriminate].
   intros k e; repeat split; simpl; discriminate. Qed.
 
-(* with logging.raiseExceptions off (the proposed repair) nothing is ever printed by a failing handler *)
+(* with logging.raiseExceptions off nothing is ever printed by a failing handler *)
 Section Quiet.
   Variable C : catches.
   Variable f : faults.
@@ -310,15 +310,13 @@ Section Quiet.
   Qed.
 End Quiet.
 
-Lemma realistic_handled_quiet f : realistic f -> handled quiet f.
-Proof. intros H k e. exact (realistic_handled f H k e). Qed.
-Lemma quiet_no_traceback f ts i : realistic f ->
-  r_tracebacks (hook_run quiet f ts i) = 0%nat /\
-  r_stdout (hook_run quiet f ts i) = r_stdout (run_nolog i) /\ r_exit (hook_run quiet f ts i) = r_exit (run_nolog i).
+Lemma no_traceback f ts i : realistic f ->
+  r_tracebacks (hook_run head f ts i) = 0%nat /\
+  r_stdout (hook_run head f ts i) = r_stdout (run_nolog i) /\ r_exit (hook_run head f ts i) = r_exit (run_nolog i).
 Proof.
-  intro H. split; [apply quiet_run; [reflexivity | apply realistic_handled_quiet; exact H]|].
-  apply observer_gen. apply realistic_handled_quiet. exact H.
+  intro H. split; [apply quiet_run; [reflexivity | apply realistic_handled; exact H]|].
+  apply observer_gen. apply realistic_handled. exact H.
 Qed.
 
-Lemma tables_tie : catches_agree current head = true \/ catches_agree current quiet = true.
-Proof. vm_compute. first [left; reflexivity | right; reflexivity]. Qed.
+Lemma tables_tie : catches_agree current head = true.
+Proof. vm_compute. reflexivity. Qed.
